@@ -10,19 +10,20 @@ PROP = dict(
     level_text="C26_roundtrip: all 15 types x versions 3/4/5, all 27 properties, any following bytes: decode(encode pk) = "
                "norm pk and the remaining-length field = number of following bytes. C26_properties: the decoded "
                "Properties struct is the explicit normal form norm_props (the documented suppression rules). "
-               "C26_encodes_permitted_form: encoder output = a standard-permitted form. C26_reencode_partial: re-encoding "
-               "of a decoded packet, under the hypothesis that the decoded packet is well-formed (not proved; checked per "
-               "case by the engine). C26_reencode_refuted + known finding KF_C26_pid0.",
+               "C26_encodes_permitted_form: encoder output = a standard-permitted form. C26_decoded_wellformed: every packet the "
+               "decoder returns is well-formed; C26_reencode_modulo_findings: any accepted byte string re-encodes (any Mods) to "
+               "bytes that decode to the normal form, modulo KF_C26_pid0, for CONNECTs with the standard protocol name/level "
+               "and inputs up to 268000000 bytes. C26_reencode_refuted + known finding KF_C26_pid0.",
     level_note="Trusted: Coq kernel, extraction, OCaml driver, Go harness. Hypotheses of the round trip: wf_packet "
                "(fields within their Go types, header flags as the type requires, CONNECT with the standard protocol "
                "name/level and no will fields without a will, strings valid UTF-8 <= 65535 bytes, size <= 268435455), "
-               "the encoder returned bytes, and the stream consists of bytes (< 256). Not proved: that the encoder "
-               "succeeds on every well-formed packet with a non-zero identifier, and that every decoded packet is "
-               "well-formed (both are evaluated on every engine case). Modelled, not verified: bytes.Buffer/mempool "
+               "and the stream consists of bytes (< 256). Re-encode provisos: CONNECT packets that ConnectValidate would "
+               "refuse for protocol name/level or will bits without will flag are not covered; inputs within 0.4 MB of the "
+               "maximum size are excluded because Properties.Decode lets a property overrun the declared block length. Modelled, not verified: bytes.Buffer/mempool "
                "as list concatenation, Go uint16/uint32/byte truncation written into the model.",
     engines=[dict(hx="codec_rt")],
-    theorems=["C26_roundtrip", "C26_encodes_permitted_form", "C26_properties", "C26_fields_preserved", "C26_reencode_partial",
-              "C26_reencode_refuted"],
+    theorems=["C26_roundtrip", "C26_encoder_refuses_only_pid0", "C26_encodes_permitted_form", "C26_properties",
+              "C26_fields_preserved", "C26_decoded_wellformed", "C26_reencode_modulo_findings", "C26_reencode_refuted"],
     model_files="coq/Codec/Wire.v coq/Codec/Props.v coq/Codec/MochiCodec.v coq/Codec/CodecNorm.v",
     rule="(kind 2) every Packet value of packets.TPacketData (with and without AllowResponseInfo), boundary values "
          "(empty / 65535-byte / 65536-byte / multi-byte / invalid strings in topic, client id, will, user name, "
